@@ -1,5 +1,5 @@
 (* C18 - populating from a directory tree is exact: the proved part is the copy loop *)
-From E2V Require Import Populate.CopyChunk Populate.CopyChunkProofs.
+From E2V Require Import Populate.CopyChunk Populate.CopyChunkProofs Populate.SeekAlign Populate.SeekAlignProofs.
 Local Open Scope N_scope.
 
 (* for every data, block size and offset: after the copy loop the file holds exactly the source bytes
@@ -16,6 +16,21 @@ Theorem zero_pieces_stay_holes : forall bs start data w,
   In w (copy_chunk bs start data) -> all_zero (snd w) = false.
 Proof. intros bs start data w H. exact (copy_pieces_nonzero (pieces bs data) start w H). Qed.
 Print Assumptions zero_pieces_stay_holes.
+
+(* sparse sources: a data extent reported by SEEK_DATA / SEEK_HOLE is widened to block boundaries with 64-bit masks;
+   the widened extent is aligned, covers every byte of the extent and adds less than a block at either end, for
+   every offset an off_t can hold - and not with a 32-bit mask, which sends offsets at or above 4 GiB back below it *)
+Theorem sparse_extent_alignment_covers : forall k data hole, (k <= 16)%N -> (data <= hole)%N -> (hole + 2 ^ k < W64)%N ->
+  let bs := (2 ^ k)%N in
+  (data_blk bs data mod bs = 0 /\ hole_blk bs hole mod bs = 0 /\
+   data_blk bs data <= data /\ data < data_blk bs data + bs /\
+   hole <= hole_blk bs hole /\ hole_blk bs hole < hole + bs)%N.
+Proof. exact aligned_extent_covers. Qed.
+Print Assumptions sparse_extent_alignment_covers.
+
+Theorem sparse_extent_alignment_32bit_refuted : exists data, (data < W64 /\ data_blk32 4096 data + 4096 <= data)%N.
+Proof. exact mask32_refuted. Qed.
+Print Assumptions sparse_extent_alignment_32bit_refuted.
 
 Example copy_example :
   copy_chunk 4 8 [1; 2; 0; 0;  0; 0; 0; 0;  0; 7; 0] = [(8, [1; 2; 0; 0]); (16, [0; 7; 0])] /\
